@@ -54,7 +54,7 @@ def boundary_ints(rng, text):
     # a vftable index or size asks for a table of that many slots: time and memory proportional to
     # it is what the property allows, so those positions are left alone
     nums = [m for m in re.finditer(r"(?<![A-Za-z_0-9])(0x[0-9a-fA-F_]+|0b[01_]+|0o[0-7_]+|\d[\d_]*)", text)
-            if not text[:m.start()].endswith("index(") and not re.match(r"\)\]\s*vftable", text[m.end():])]
+            if not text[:m.start()].endswith("index(") and not re.match(r"\)\]\s*(?:///[^\n]*\s*)*vftable", text[m.end():])]
     if not nums:
         return text
     out = text
